@@ -211,6 +211,18 @@ fn refused(ctx: &mut Ctx, constructor: &str) {
     ctx.bump(&format!("sources_refused_by_constructor: {constructor}"), 1);
 }
 
+/// The floor under the constructor refusals: a fact set that at least one constructor was asked to build and that NO
+/// constructor built has no round trip at all. That is not a verdict about the round trip - and not a clean pass
+/// either: the run is marked "not exhaustive" and says which fact set is without verdict.
+fn floor(ctx: &mut Ctx, what: &str, built: usize, attempted: usize) {
+    if built == 0 && attempted > 0 {
+        ctx.bump("refused: fact set refused by every constructor that was asked to build it (no round trip, no verdict)", 1);
+        // (the note names single deviations and shapes; combinations share one note so that their number stays bounded)
+        let named = if what.contains(" + ") { "a combination of deviations" } else { what };
+        ctx.mark_partial(&format!("C07: {named} could not be built by any of the constructors that were asked to (no round trip of it: no verdict)"));
+    }
+}
+
 /// Is `got` a legitimate reloaded form of the term / gene name `orig`? Up to 255 bytes: the name itself. Longer, with
 /// byte 255 on a character boundary: exactly the first 255 bytes (nothing else is "the name up to the limit").
 /// Longer, with the limit inside a character: the documentation says "trimmed to 255" and no more, so any prefix of
@@ -269,8 +281,25 @@ fn roundtrip_with(ctx: &mut Ctx, o: &Ontology, constructor: &str, case: &dyn Fn(
     let before = match Obs::of(o) {
         Ok(b) => b,
         Err(_) => {
-            // a constructor that hands out an ontology whose own read API is inconsistent: not a round-trip fault
-            ctx.bump("sources_not_walkable_skipped", 1);
+            // a constructor that hands out an ontology whose own read API is inconsistent: not a round-trip fault, and
+            // without an observation of the source nothing can be compared. The half of the statement that needs no
+            // observation is still demanded: serialisation neither panics nor emits bytes the loader rejects or
+            // panics on, and what the loader returns is walkable.
+            ctx.bump("sources_not_walkable_skipped (comparison skipped: the source's own read API is inconsistent; serialise + reload still demanded)", 1);
+            match guard(|| o.as_bytes()) {
+                Err(p) => ctx.violation("Ontology::as_bytes", "panics", json!({"case": case(), "constructor": constructor, "observed": p, "note": "the source's own read API is inconsistent"})),
+                Ok(bytes) => match drive::from_bytes(&bytes) {
+                    Ok(Ok(o2)) => {
+                        if let Err(i) = Obs::of(&o2) {
+                            // (inconsistent before and after: the constructor's fault is carried through, not the round trip's)
+                            let _ = i;
+                            ctx.bump("skipped: reloaded ontology of a non-walkable source is not walkable either", 1);
+                        }
+                    }
+                    Ok(Err(e)) => ctx.violation(site, "serialisation emits bytes that the loader rejects", json!({"case": case(), "constructor": constructor, "observed": e, "note": "the source's own read API is inconsistent"})),
+                    Err(p) => ctx.violation(site, "serialisation emits bytes that the loader panics on", json!({"case": case(), "constructor": constructor, "observed": p, "note": "the source's own read API is inconsistent"})),
+                },
+            }
             return;
         }
     };
@@ -458,9 +487,10 @@ const N_EXTRAS: usize = 5;
 /// encoder (the documented upgrade path: read an old file, write the newest layout), `from_standard_transitive`.
 /// A constructor that refuses the facts is counted (`refused`), not reported.
 #[allow(clippy::too_many_arguments)]
-fn extra_sources(ctx: &mut Ctx, f: &Facts, base: Option<&Ontology>, which: Extras, encodable: bool, textable: bool, case: &dyn Fn() -> Value) -> usize {
+fn extra_sources(ctx: &mut Ctx, f: &Facts, base: Option<&Ontology>, which: Extras, encodable: bool, textable: bool, case: &dyn Fn() -> Value) -> (usize, usize) {
     let rt = Rt::default();
     let mut built = 0;
+    let mut attempted = 0;
     for e in 0..N_EXTRAS {
         if which >> e & 1 == 0 {
             continue;
@@ -468,6 +498,7 @@ fn extra_sources(ctx: &mut Ctx, f: &Facts, base: Option<&Ontology>, which: Extra
         match e {
             0 => {
                 if let Some(b) = base {
+                    attempted += 1;
                     match guard(|| b.clone()) {
                         Ok(c) => {
                             built += 1;
@@ -491,13 +522,17 @@ fn extra_sources(ctx: &mut Ctx, f: &Facts, base: Option<&Ontology>, which: Extra
                             built += 1;
                             roundtrip_with(ctx, &sub, "sub_ontology(HP:1, every term below HP:1)", case, Rt { no_defaults: true });
                         }
-                        _ => ctx.bump("sub_ontology_sources_skipped (failed, or without both root terms)", 1),
+                        // (one key per reason, so that a change from "lacks a root term" to "panics" shows in the run's NOTE)
+                        Ok(Some(_)) => ctx.bump("sub_ontology_sources_skipped: result lacks HP:1 or HP:118 (C14's subject)", 1),
+                        Ok(None) => ctx.bump("sub_ontology_sources_skipped: sub_ontology returned an error or HP:1 is not found (C14's subject)", 1),
+                        Err(_) => ctx.bump("sub_ontology_sources_skipped: sub_ontology or the walk to its arguments panicked (C14's subject)", 1),
                     }
                 }
             }
             2 | 3 => {
                 let version = if e == 2 { 2u8 } else { 1u8 };
                 if encodable {
+                    attempted += 1;
                     let pf = encode::project(f, version);
                     ctx.transitions(pf.n_steps());
                     match drive::from_bytes(&encode::encode(&pf, &EncOpts::v(version))) {
@@ -513,6 +548,7 @@ fn extra_sources(ctx: &mut Ctx, f: &Facts, base: Option<&Ontology>, which: Extra
                 let mut tf = f.clone();
                 tf.anns.retain(|a| a.term.is_some());
                 if textable && text_expressible(&tf) {
+                    attempted += 1;
                     ctx.transitions(tf.n_steps());
                     match jax::load(&jax::render(&tf, &JaxOpts::default()), true) {
                         Ok(Ok(o)) => {
@@ -525,7 +561,7 @@ fn extra_sources(ctx: &mut Ctx, f: &Facts, base: Option<&Ontology>, which: Extra
             }
         }
     }
-    built
+    (built, attempted)
 }
 
 /// Build the ontology of a spec through every public constructor that can express it, and round-trip each.
@@ -534,8 +570,10 @@ fn run_spec(ctx: &mut Ctx, spec: &Spec, label: &str, extras: Extras) -> usize {
     let f = spec.facts();
     let case = || json!({"deviations": label, "facts": f.to_json()});
     let mut built = 0;
+    let mut attempted = 0;
     let mut base: Option<Ontology> = None;
     if !spec.needs_flags() {
+        attempted += 1;
         ctx.transitions(f.n_steps());
         match drive::build(&f, Mode::Defaults) {
             Ok(o) => {
@@ -547,6 +585,7 @@ fn run_spec(ctx: &mut Ctx, spec: &Spec, label: &str, extras: Extras) -> usize {
         }
     }
     if !spec.long_names() {
+        attempted += 1;
         ctx.transitions(f.n_steps());
         let bytes = encode::encode(&f, &EncOpts::v(3));
         match drive::from_bytes(&bytes) {
@@ -564,6 +603,7 @@ fn run_spec(ctx: &mut Ctx, spec: &Spec, label: &str, extras: Extras) -> usize {
         let mut tf = f.clone();
         tf.anns.retain(|a| a.term.is_some());
         if text_expressible(&tf) {
+            attempted += 1;
             ctx.transitions(f.n_steps());
             match jax::load(&jax::render(&tf, &JaxOpts::default()), false) {
                 Ok(Ok(o)) => {
@@ -579,10 +619,14 @@ fn run_spec(ctx: &mut Ctx, spec: &Spec, label: &str, extras: Extras) -> usize {
             ctx.bump("text_path_skipped (an empty or blank name cannot be expressed in the text formats)", 1);
         }
     }
-    built += extra_sources(ctx, &f, base.as_ref(), extras, !spec.long_names(), spec.textable(), &case);
-    if built == 0 {
-        ctx.bump("specs_not_constructible_through_any_public_constructor", 1);
+    let (b, a) = extra_sources(ctx, &f, base.as_ref(), extras, !spec.long_names(), spec.textable(), &case);
+    built += b;
+    attempted += a;
+    if attempted == 0 {
+        // flags (no Builder) + a name beyond 255 bytes (no encoder) + a blank name or a release the text cannot carry
+        ctx.bump("specs_not_expressible_through_any_public_constructor (nothing asked)", 1);
     }
+    floor(ctx, label, built, attempted);
     built
 }
 
@@ -767,19 +811,24 @@ pub fn run(ctx: &mut Ctx) {
         let case = || json!({"family": what, "facts": f.to_json()});
         ctx.transitions(f.n_steps());
         let mut base: Option<Ontology> = None;
+        let mut built = 0usize;
         match drive::from_bytes(&encode::encode(f, &EncOpts::v(3))) {
             Ok(Ok(o)) => {
+                built += 1;
                 roundtrip(ctx, &o, "from_bytes(independent encoder)", &case);
                 base = Some(o);
             }
             _ => refused(ctx, "from_bytes(independent encoder)"),
         }
         // one of the further constructors, in rotation over the family
-        extra_sources(ctx, f, base.as_ref(), if thorough && family_no % 5 == 0 { 1 } else { extras_one(family_no) }, true, true, &case);
+        built += extra_sources(ctx, f, base.as_ref(), if thorough && family_no % 5 == 0 { 1 } else { extras_one(family_no) }, true, true, &case).0;
         if f.terms.iter().all(|t| !t.obsolete && t.replacement.is_none()) {
             ctx.transitions(f.n_steps());
             match drive::build(f, Mode::Defaults) {
-                Ok(o) => roundtrip(ctx, &o, "Builder", &case),
+                Ok(o) => {
+                    built += 1;
+                    roundtrip(ctx, &o, "Builder", &case)
+                }
                 Err(_) => refused(ctx, "Builder"),
             }
         } else {
@@ -799,11 +848,15 @@ pub fn run(ctx: &mut Ctx) {
                 o.stanza_order = Some(order);
                 ctx.transitions(tf.n_steps());
                 match jax::load(&jax::render(&tf, &o), false) {
-                    Ok(Ok(ont)) => roundtrip(ctx, &ont, oname, &|| json!({"family": what, "facts": tf.to_json(), "constructor": oname})),
+                    Ok(Ok(ont)) => {
+                        built += 1;
+                        roundtrip(ctx, &ont, oname, &|| json!({"family": what, "facts": tf.to_json(), "constructor": oname}))
+                    }
                     _ => refused(ctx, "from_standard"),
                 }
             }
         }
+        floor(ctx, "a fact set of the small-ontology family", built, 1);
         ctx.sample(|| json!({"family": what}));
     }
 
@@ -900,22 +953,33 @@ pub fn run(ctx: &mut Ctx) {
             ctx.nontrivial();
             let case = || json!({"shape": what, "terms": f.terms.len(), "links": f.edges.len(), "annotation_facts": f.anns.len()});
             ctx.transitions(f.n_steps());
+            let mut built = 0usize;
             if f.terms.iter().all(|t| !t.obsolete && t.replacement.is_none()) {
                 match drive::build(f, Mode::Defaults) {
-                    Ok(o) => roundtrip(ctx, &o, "Builder", &case),
+                    Ok(o) => {
+                        built += 1;
+                        roundtrip(ctx, &o, "Builder", &case)
+                    }
                     Err(_) => refused(ctx, "Builder"),
                 }
             }
             ctx.transitions(f.n_steps());
             match drive::from_bytes(&encode::encode(f, &EncOpts::v(3))) {
-                Ok(Ok(o)) => roundtrip(ctx, &o, "from_bytes(independent encoder)", &case),
+                Ok(Ok(o)) => {
+                    built += 1;
+                    roundtrip(ctx, &o, "from_bytes(independent encoder)", &case)
+                }
                 _ => refused(ctx, "from_bytes(independent encoder)"),
             }
             ctx.transitions(f.n_steps());
             match jax::load(&jax::render(f, &JaxOpts::default()), false) {
-                Ok(Ok(o)) => roundtrip(ctx, &o, "from_standard", &case),
+                Ok(Ok(o)) => {
+                    built += 1;
+                    roundtrip(ctx, &o, "from_standard", &case)
+                }
                 _ => refused(ctx, "from_standard"),
             }
+            floor(ctx, &format!("the writer-side shape '{}'", what.split(',').next().unwrap_or(what)), built, 1);
             ctx.sample(|| case());
         }
     }
